@@ -158,6 +158,27 @@ def run_operation(prog: Program, op: str, I: Optional[Interp] = None, reply_minl
     return I, outs, fi
 
 
+def run_operation_by_combo(prog: Program, op: str, I: Optional[Interp] = None) -> Tuple[Interp, List[Tuple[Dict[str, Any], List[Outcome]]], FunctionInfo]:
+    """Like run_operation, but keeps the outcomes of each given/omitted combination of optional arguments apart."""
+    clsname, types = OPERATIONS[op]
+    I = I or make_interp(prog)
+    ci = prog.cls(f"{API_MOD}:{clsname}")
+    fi = ci.find_method(op)
+    if fi is None:
+        raise AnalysisError(f"anchor vanished: {clsname}.{op}")
+    res = []
+    for combo in expand_optionals(types):
+        st = I.new_state()
+        selfv = api_self(I, st, ci)
+        args: Dict[str, Term] = {fi.params[0]: selfv}
+        for name, typ in combo.items():
+            if name not in fi.params:
+                raise AnalysisError(f"anchor vanished: parameter {name} of {clsname}.{op}")
+            args[name] = c(None) if typ is None else sym_arg(I, st, name, typ)
+        res.append((combo, I.run(fi, args, st)))
+    return I, res, fi
+
+
 # ---------------------------------------------------------------------------
 def writes(o: Outcome) -> List[Event]:
     return [e for e in o.state.events if e.kind == "call" and e.target == "writer.write"]
